@@ -29,6 +29,7 @@ HISTORIES = [
     [("USR2", "a"), ("USR2", "b"), ("STOP", "a")],                # USR2 to the un-promoted new master is ignored
     [("USR2", "a"), ("STOP", "a"), ("STOP", "b")],                # upgrade, later stop the new one: nothing left
     [("USR2", "a"), ("STOP", "b"), ("STOP", "a")],                # rollback, then stop: nothing left
+    [("USR2_EARLY", "a"), ("STOP", "a")],                         # the old master leaves while the new one is still booting
 ]
 
 
@@ -41,7 +42,10 @@ def read_pid(path):
 
 
 def run_history(hist, bind, stopsig, wk="sync"):
-    s = rp.Server(wk, workers=1, bind=bind, pidfile=True, args=["--graceful-timeout", "3"], name="c14")
+    early = any(op == "USR2_EARLY" for op, _ in hist)
+    s = rp.Server(wk, workers=1, bind=bind, pidfile=True,
+                  args=["--graceful-timeout", "3"] + (["--preload"] if early else []),
+                  env={"VERIF_BOOT_SLEEP": "1.5"} if early else None, name="c14")
     masters = {}           # name -> pid
     stop = threading.Event()
     counters = {"refused": 0, "complete": 0, "failed": 0}
@@ -87,7 +91,23 @@ def run_history(hist, bind, stopsig, wk="sync"):
             return {"e": "chk", "alive": al, "base": name_of(read_pid(s.pidfile)), "two": name_of(read_pid(s.pidfile + ".2")),
                     "sock": bool(s.sockpath and os.path.exists(s.sockpath)), "refused": refused, "nmasters": len(al)}
         ev = [checkpoint()]
+        def find_new(name):
+            # the master started by the last USR2 records itself under ".2" (or, once promoted, under the base name)
+            for path in (s.pidfile + ".2", s.pidfile):
+                p = read_pid(path)
+                if p and p not in masters.values() and rp.proc_state(p) not in (None, "Z"):
+                    masters[name] = p
+                    return True
+            return False
+        pending = None
         for op, m in hist:
+            if op == "USR2_EARLY":
+                # USR2, and do not wait for the new master to come up (it is still importing the application)
+                os.kill(masters[m], signal.SIGUSR2)
+                pending = {"a": "b", "b": "c"}[m]
+                time.sleep(0.4)
+                ev.append({"e": "op", "op": "USR2", "m": m})
+                continue
             if op == "USR2":
                 before = set(rp.children_of(masters[m])) if alive(m) else set()
                 if alive(m):
@@ -109,6 +129,12 @@ def run_history(hist, bind, stopsig, wk="sync"):
                     deadline = time.time() + 8
                     while time.time() < deadline and alive(m):
                         time.sleep(0.05)
+                if pending:
+                    deadline = time.time() + 8
+                    while time.time() < deadline and not find_new(pending):
+                        time.sleep(0.05)
+                    pending = None
+                    time.sleep(1.0)
                 time.sleep(1.6)          # SIGCHLD / promotion (main loop period 1 s)
             ev.append({"e": "op", "op": op, "m": m})
             ev.append(checkpoint())
@@ -157,11 +183,12 @@ def c14(ctx):
     rng = ctx.rng
     if ctx.quick:
         plan = [(HISTORIES[0], "unix", signal.SIGTERM), (HISTORIES[1], "tcp", signal.SIGQUIT),
-                (HISTORIES[2], "tcp", signal.SIGTERM), (HISTORIES[3], "unix", signal.SIGTERM)]
+                (HISTORIES[2], "tcp", signal.SIGTERM), (HISTORIES[3], "unix", signal.SIGTERM),
+                (HISTORIES[4], "tcp", signal.SIGTERM), (HISTORIES[8], "unix", signal.SIGTERM)]
     else:
         plan = [(h, b, sg) for h in HISTORIES for b in ("tcp", "unix") for sg in (signal.SIGTERM, signal.SIGQUIT)]
     from props.reload_real import _parallel
-    results = _parallel(plan, lambda a, i: run_history(a[0], a[1], a[2], wk=rng.choice(["sync", "gthread"])))
+    results = _parallel(plan, lambda a, i: run_history(a[0], a[1], a[2], wk=rng.choice(["sync", "gthread"])), par=6)
     ctx.coverage["real_process_histories"] = len(results)
     for unix in (True, False):
         sel = [(t, m) for t, m in results if t["unix"] == unix]
